@@ -1,7 +1,9 @@
 (* Crash cuts, part 2: every prefix of the effects of an ingestion, of a flush and of a recovery,
    applied to the directory of a reachable state at rest, recovers to the acknowledged content (or,
-   for an ingestion, to that plus the request in flight, whole) - except the cuts at which the temp
-   file of a log segment is incomplete (finding F8: RFail). *)
+   for an ingestion once the segment file has its name, to that plus the request in flight,
+   whole).  Here under the state invariant [Inv] alone, which leaves the catalogue panics of the
+   replay open ([good_recovery]); Proofs/CrashSMTotal.v closes them for histories of well-formed
+   requests ([recovers]). *)
 From Coq Require Import NArith ZArith List Bool Lia.
 From LV Require Import Model.TableSM Model.Catalogue Model.WalSM Model.CrashSM
      Proofs.TableSM Proofs.WalSMBase Proofs.WalSM Proofs.WalSMLog Proofs.CrashSM.
@@ -11,10 +13,16 @@ Open Scope N_scope.
 Ltac db_simpl := cbn [tabs next_wal earliest wal_size d_cursor d_wal acked cd_db cd_tmp
                       with_wal with_tabs with_cursor].
 
-(* what a recovery may answer on a cut of an operation that takes content [before] to [after] *)
-Definition good_recovery (r : res db) (before after : name -> list row) : Prop :=
-  (exists s', r = Val s' /\ ((forall n, content s' n = before n) \/ (forall n, content s' n = after n))) \/
-  (exists st, r = Panic st /\ cat_site st).
+(* the recovery returned a database whose tables hold exactly [f] *)
+Definition recovers (r : res db) (f : name -> list row) : Prop :=
+  exists s', r = Val s' /\ forall n, content s' n = f n.
+
+(* ... or it stopped at one of the catalogue look-ups of the replay *)
+Definition good_recovery (r : res db) (f : name -> list row) : Prop :=
+  recovers r f \/ (exists st, r = Panic st /\ cat_site st).
+
+Lemma good_total : forall r f, good_recovery r f -> (exists s', r = Val s') -> recovers r f.
+Proof. intros r f [H|[st [-> _]]] [s' E]; [exact H|discriminate]. Qed.
 
 (* ---------------------------------------------------------------------------------------------- *)
 (* ingestion *)
@@ -45,14 +53,28 @@ Proof.
   - right. exact P.
 Qed.
 
-(* the cuts of an ingestion: before anything / temp file incomplete / temp file whole / renamed *)
+(* the directory after the first k effects of an ingestion: nothing / temp file incomplete / temp
+   file whole / segment file in place *)
+Lemma ingest_cut_shape : forall s id sg k,
+  let d := cut (at_rest s) [EWalTmpCreate id; EWalTmpWrite id sg; EWalRename id sg] k in
+  ((k < 3)%nat /\ cd_db d = s) \/
+  ((3 <= k)%nat /\ cd_db d = with_wal s (d_wal s ++ [(id, sg)]) /\ cd_tmp d = None).
+Proof.
+  intros s id sg k. destruct k as [|[|[|k]]]; unfold cut, apply_effs; cbn [firstn fold_left apply_eff at_rest cd_db cd_tmp].
+  - left. split; [lia|reflexivity].
+  - left. split; [lia|reflexivity].
+  - left. split; [lia|reflexivity].
+  - replace (firstn k []) with (@nil eff) by (destruct k; reflexivity).
+    cbn [fold_left cd_db cd_tmp]. right. split; [lia|auto].
+Qed.
+
+(* the cuts of an ingestion: up to the rename (temp file absent, incomplete or whole) recovery gives
+   the acknowledged content, from the rename on that plus the request in flight *)
 Theorem ingest_cuts : forall c b bytes s s' k,
   Inv s -> ingest c b bytes s = Val s' ->
   let full := match rev (acked s') with x :: _ => x | [] => [] end in
-  match recover_c c (cut (at_rest s) (ingest_effects (next_wal s) bytes full) k) with
-  | RFail => k = 1%nat
-  | ROut r => k <> 1%nat /\ good_recovery r (content s) (content s')
-  end.
+  good_recovery (recover_c c (cut (at_rest s) (ingest_effects (next_wal s) bytes full) k))
+                (if (k <? 3)%nat then content s else content s').
 Proof.
   intros c b bytes s s' k I H full.
   destruct (ingest_spec _ _ _ _ _ I H) as [_ [extra [Ea [Hc _]]]].
@@ -61,20 +83,16 @@ Proof.
   assert (Hafter : forall n, content s' n = content s n ++ batch_rows n full).
   { intro n. rewrite Efull. apply Hc. }
   set (sg := {| sg_bytes := bytes; sg_data := full |}).
-  assert (Hrest : good_recovery (recover c s) (content s) (content s')).
-  { destruct (recover_outcome c s I) as [[s0 R]|[st [R P]]].
-    - left. exists s0. split; auto. left. intro n. destruct (recover_spec _ _ _ I R) as [_ [C _]]. apply C.
-    - right. exists st. split; auto. }
-  assert (Hextra : good_recovery (recover c (with_wal s (d_wal s ++ [(next_wal s, sg)]))) (content s) (content s')).
-  { destruct (recover_with_extra_segment c s (next_wal s) sg I eq_refl) as [[s0 [R C]]|P].
-    - left. exists s0. split; auto. right. intro n. rewrite C, Hafter. reflexivity.
-    - right. exact P. }
-  destruct k as [|[|[|k]]]; unfold cut, ingest_effects, apply_effs, recover_c; cbn [firstn fold_left apply_eff at_rest cd_db cd_tmp].
-  - split; [discriminate|exact Hrest].
-  - reflexivity.
-  - split; [discriminate|exact Hextra].
-  - replace (firstn k []) with (@nil eff) by (destruct k; reflexivity).
-    cbn [fold_left cd_db cd_tmp]. split; [discriminate|exact Hextra].
+  unfold recover_c, ingest_effects. fold sg.
+  destruct (ingest_cut_shape s (next_wal s) sg k) as [[Hk ->]|[Hk [-> _]]].
+  - assert (E : (k <? 3)%nat = true) by (apply Nat.ltb_lt; exact Hk). rewrite E.
+    destruct (recover_outcome c s I) as [[s0 R]|[st [R P]]].
+    + left. exists s0. split; auto. intro n. destruct (recover_spec _ _ _ I R) as [_ [C _]]. apply C.
+    + right. exists st. split; auto.
+  - assert (E : (k <? 3)%nat = false) by (apply Nat.ltb_ge; exact Hk). rewrite E.
+    destruct (recover_with_extra_segment c s (next_wal s) sg I eq_refl) as [[s0 [R C]]|P].
+    + left. exists s0. split; auto. intro n. rewrite C, Hafter. reflexivity.
+    + right. exact P.
 Qed.
 
 (* ---------------------------------------------------------------------------------------------- *)
@@ -129,7 +147,7 @@ Proof.
     + rewrite lookup_upd_other; auto.
   - cbn [stored]. db_simpl. exists t2. split; [eapply lookup_upd_same; eauto|].
     unfold t2. cbn [t_files set_tfiles]. apply find_file_store_same.
-  - intros e' S Hk. destruct e' as [| | |n' id' rows'| | |]; cbn [stored] in *; auto.
+  - intros e' S Hk. destruct e' as [| | | |n' id' rows'| | |]; cbn [stored] in *; auto.
     db_simpl. destruct S as [t0 [L0 F0]]. destruct (list_eq_dec N.eq_dec n' n) as [->|Hne].
     + rewrite L' in L0. injection L0 as <-. exists t2. split; [eapply lookup_upd_same; eauto|].
       unfold t2. cbn [t_files set_tfiles]. rewrite find_file_store_other; auto.
@@ -158,12 +176,9 @@ Qed.
 
 (* recovery on a frame-A directory gives the content of [s] *)
 Lemma recover_frame_a : forall c s d, Inv s -> frame_a s d ->
-  match recover_c c d with
-  | RFail => False
-  | ROut r => good_recovery r (content s) (content s)
-  end.
+  good_recovery (recover_c c d) (content s).
 Proof.
-  intros c s d I [Ft Fk Fc Fw Fa]. unfold recover_c. rewrite Ft.
+  intros c s d I [Ft Fk Fc Fw Fa]. unfold recover_c.
   set (s1 := cd_db d).
   assert (Ekept : kept s1 = d_wal s).
   { unfold kept, cursor_of. fold s1 in Fc, Fw. rewrite Fc, Fw. apply (inv_kept _ I). }
@@ -182,7 +197,7 @@ Proof.
     fold s1 in L''. rewrite L' in L''. injection L'' as <-.
     destruct (inv_restore_ok _ I _ _ L) as [ps E]. exists ps. rewrite Hm, (restore_parts_ext _ _ _ Hf). exact E.
   - rewrite Ekept. exists (earliest s), (length (d_wal s)). apply (i_ids _ I).
-  - left. exists s'. split; auto. left. intro n.
+  - left. exists s'. split; auto. intro n.
     rewrite C, Hview, durable_wal_rows_kept, Ekept, <- (durable_wal_rows_inv _ _ I), (durable_decomposition _ _ I).
     symmetry. apply (i_acked _ I).
   - right. exact P.
@@ -229,7 +244,7 @@ Lemma apply_remove_frame_b : forall s l1 d e,
    end) ->
   frame_b s l1 (apply_eff d e).
 Proof.
-  intros s l1 d e [Bt Bk Bc Bw Ba] He. destruct e as [| | | | |n id|id]; try contradiction.
+  intros s l1 d e [Bt Bk Bc Bw Ba] He. destruct e as [| | | | | |n id|id]; try contradiction.
   - destruct He as [t1 [L1 Hid]]. destruct (Ba _ _ L1) as [t' [L' [Hm Hf]]].
     cbn [apply_eff]. rewrite L'. constructor; db_simpl; auto.
     + rewrite keys_upd. exact Bk.
